@@ -28,6 +28,8 @@ def specs(tier):
     S += [U.to_kind(g, SCRG) for g in U.stars(5)][::3]
     S += [U.to_kind(g, SCRG) for g in U.two_unit()][::2]
     S += [g for _, g in U.symmetric() if g.kind == SMG]
+    S += list(U.stars_extra())
+    S += [U.to_kind(g, SCRG) for g in U.stars_extra()][::2]
     out = []
     for i, g in enumerate(S):
         out.append(g)
